@@ -53,24 +53,27 @@ def make_op(spec):
 
 
 def spec_of(op):
-    """inverse of make_op for an operation object found in a circuit (None for Input/Output)"""
+    """inverse of make_op for an operation object found in a circuit (None for Input/Output).
+    Registers are read from the base fields q_registers / q_registers_type / c_registers, which are what the DAG itself
+    uses (for operations loaded by from_json the convenience fields control_type / reg_type can be stale)."""
     t = type(op)
     if isinstance(op, ops.InputOutputOperationBase):
         return None
+    qr, qt, cr = list(op.q_registers), list(op.q_registers_type), list(op.c_registers)
     if t is ops.OneQubitGateWrapper:
-        base = ["w", [G1_INV[c] for c in op.operations], op.reg_type, op.register]
+        base = ["w", [G1_INV[c] for c in op.operations], qt[0], qr[0]]
         nz = op.noise
         if not isinstance(nz, list) and type(nz).__name__ != "NoNoise" and isinstance(getattr(nz, "noise_parameters", None), dict):
             base.append("noise_after" if nz.noise_parameters.get("After gate", True) else "noise_before")
         return base
     if t in G1_INV:
-        return ["g1", G1_INV[t], op.reg_type, op.register]
+        return ["g1", G1_INV[t], qt[0], qr[0]]
     if t in G2_INV:
-        return ["g2", G2_INV[t], op.control_type, op.control, op.target_type, op.target]
+        return ["g2", G2_INV[t], qt[0], qr[0], qt[1], qr[1]]
     if t in CC_INV:
-        return ["cc", CC_INV[t], op.control_type, op.control, op.target_type, op.target, op.c_register]
+        return ["cc", CC_INV[t], qt[0], qr[0], qt[1], qr[1], cr[0]]
     if t is ops.MeasurementZ:
-        return ["m", op.reg_type, op.register, op.c_register]
+        return ["m", qt[0], qr[0], cr[0]]
     return ["?", t.__name__]
 
 
